@@ -130,13 +130,13 @@ type Trace struct {
 	LateFrom        int   // index into Adds/Writes/Gets bookkeeping: see LateAdds etc.
 	LateAdds        []AddRec
 	LateWrites      []WriteRec
-	FinalLate       []GetRec // getters once more after the late calls
-	LateProxies     int      // ProxyReader/ProxyWriter calls made after Wait returned
-	LateProxyNonNil int      // ... that returned a non-nil proxy
-	LateChunksAfter int      // output writes caused by late calls
-	UserWGDoneSeq   int64    // event seq at which the user wait group was released (WithWaitGroup)
+	FinalLate       []GetRec    // getters once more after the late calls
+	LateProxies     int         // ProxyReader/ProxyWriter calls made after Wait returned
+	LateProxyNonNil int         // ... that returned a non-nil proxy
+	LateChunksAfter int         // output writes caused by late calls
+	UserWGDoneSeq   int64       // event seq at which the user wait group was released (WithWaitGroup)
 	IDs             map[int]int // Bar.ID() after Wait
-	AddOrder        []int    // bars in the order their Add returned successfully
+	AddOrder        []int       // bars in the order their Add returned successfully
 }
 
 // StepSeqLast is the event sequence number at the end of the last program step
@@ -164,6 +164,7 @@ type Options struct {
 var runMu sync.Mutex
 
 type runner struct {
+	midRender        atomic.Pointer[func(bool)] // armed by a tick step that carries a priority change
 	sc               *Scenario
 	opt              Options
 	tr               *Trace
@@ -308,8 +309,14 @@ func (r *runner) hang(kind string, gs []G) {
 	})
 }
 
+// InconclusiveHook, when set, is told about every run that ends inconclusive.
+var InconclusiveHook func(sc *Scenario, why string)
+
 func (r *runner) inconclusive(why string) {
 	r.abortOnce.Do(func() {
+		if InconclusiveHook != nil {
+			InconclusiveHook(r.sc, why)
+		}
 		r.mu.Lock()
 		r.tr.Inconclusive = why
 		r.mu.Unlock()
@@ -647,6 +654,9 @@ func (r *runner) buildBarOptions(idx int) (mpb.BarFiller, []mpb.BarOption) {
 	var fillCalls atomic.Int64
 	filler := mpb.BarFillerFunc(func(w io.Writer, s decor.Statistics) error {
 		k := fillCalls.Add(1)
+		if f := r.midRender.Load(); f != nil {
+			(*f)(true)
+		}
 		r.mu.Lock()
 		r.tr.FillCalls[idx] = int(k)
 		r.mu.Unlock()
@@ -1025,7 +1035,7 @@ func (r *runner) scenario() {
 	if !r.cancelled.Load() {
 		r.finishBars()
 	}
-	if cfg.Delay && !r.delayReleased && !r.cancelled.Load() {
+	if cfg.Delay && !cfg.DelayNever && !r.delayReleased && !r.cancelled.Load() {
 		// (a cancelled container must stop even if its render delay never ends)
 		r.delayReleased = true
 		r.event("client.release", 1, nil)
@@ -1296,6 +1306,48 @@ func (r *runner) tick() bool {
 	return true
 }
 
+// tickWithPriorityChange requests a frame and has a client goroutine change a
+// bar's priority while that cycle is rendering (started from the first filler
+// call of the cycle). The call cannot be served before the cycle is over, so
+// the model applies it right after the frame; the step returns once the call
+// has returned.
+func (r *runner) tickWithPriorityChange(st *Step, b *mpb.Bar) {
+	done := make(chan struct{})
+	var once sync.Once
+	fire := func(async bool) {
+		once.Do(func() {
+			f := func() {
+				defer close(done)
+				if b == nil {
+					return
+				}
+				switch st.Text {
+				case "prio":
+					b.SetPriority(int(st.N))
+				case "uprio":
+					r.p.UpdateBarPriority(b, int(st.N), false)
+				default:
+					r.p.UpdateBarPriority(b, int(st.N), true)
+				}
+			}
+			if async {
+				r.event("client.prio.midrender", st.Bar, nil)
+				go f()
+			} else {
+				f()
+			}
+		})
+	}
+	r.midRender.Store(&fire)
+	r.tick()
+	r.midRender.Store(nil)
+	fire(false)
+	select {
+	case <-done:
+	case <-r.abort:
+	}
+}
+
 func (r *runner) logCall(c CallRec) {
 	r.mu.Lock()
 	if len(r.tr.Calls) < 100000 {
@@ -1320,9 +1372,30 @@ func (r *runner) runStepC(st *Step, idx, depth, client int) {
 			return
 		}
 		filler, opts := r.buildBarOptions(st.Bar)
+		var tickRet chan struct{}
+		if st.Flag && depth == 0 && (r.sc.Cfg.Refresh == "manual" || r.sc.Cfg.Refresh == "autoinj") {
+			// user code inside an option callback asks for a frame and lingers a
+			// little; the container cannot serve it before this Add is through
+			opts = append(opts, mpb.BarFillerMiddleware(func(f mpb.BarFiller) mpb.BarFiller {
+				tickRet = make(chan struct{})
+				n0 := r.rendEnd.Load()
+				r.event("client.tick", 1, nil)
+				go func() { defer close(tickRet); r.tick() }()
+				for dl := time.Now().Add(time.Millisecond); r.rendEnd.Load() == n0 && time.Now().Before(dl); {
+					time.Sleep(50 * time.Microsecond)
+				}
+				return f
+			}))
+		}
 		inv := r.seq.Add(1)
 		nb, err := r.p.Add(r.sc.Bars[st.Bar].Total, filler, opts...)
 		ret := r.seq.Add(1)
+		if tickRet != nil {
+			select {
+			case <-tickRet:
+			case <-r.abort:
+			}
+		}
 		if err == nil && nb != nil {
 			r.ptr2idx.Store(nb, st.Bar)
 			r.barsMu.Lock()
@@ -1418,7 +1491,11 @@ func (r *runner) runStepC(st *Step, idx, depth, client int) {
 		r.mu.Unlock()
 	case "tick":
 		r.event("client.tick", 0, nil)
-		r.tick()
+		if st.Text == "prio" || st.Text == "uprio" || st.Text == "uprio-lazy" {
+			r.tickWithPriorityChange(st, b)
+		} else {
+			r.tick()
+		}
 	case "cancel":
 		s := r.event("client.cancel", 0, nil)
 		r.mu.Lock()
